@@ -124,6 +124,7 @@ type keptExporter struct {
 }
 
 var keptExporters = map[string]*keptExporter{}
+var emitTypedCount int
 
 func emitTypedWith(cw *caseWriter, f, ty string, v interface{}, batchBack string) {
 	t := jsonline.NewTemplate().With("c", formatByName[f], tySample[ty])
@@ -151,9 +152,15 @@ func emitTypedWith(cw *caseWriter, f, ty string, v interface{}, batchBack string
 			extForValue(got, ext)
 			back1 = "ok " + dynStr(got)
 		}
-		// via exporter -> importer
+		// via exporter -> importer; every other value travels next to an UNDECLARED member whose name differs from
+		// the column's by case only: another name, another member
 		var buf bytes.Buffer
-		if err := t.GetExporter(&buf).Export(map[string]interface{}{"c": v}); err != nil {
+		emitTypedCount++
+		in := map[string]interface{}{"c": v}
+		if emitTypedCount%2 == 0 {
+			in["C"] = 7
+		}
+		if err := t.GetExporter(&buf).Export(in); err != nil {
 			back2 = "err " + classifyLine(err)
 			return
 		}
